@@ -480,6 +480,10 @@ func (t Time) Binary(op syntax.Token, y starlark.Value, side starlark.Side) (sta
 			if side == starlark.Right {
 				return nil, nil // duration - time is not defined
 			}
+			if y == math.MinInt64 {
+				// -y is not representable: subtract in two steps.
+				return Time(x.Add(math.MaxInt64).Add(1)), nil
+			}
 			return Time(x.Add(time.Duration(-y))), nil
 		case Time:
 			// time - time = duration
